@@ -414,6 +414,52 @@ Proof.
     rewrite <- app_assoc. exact L.
 Qed.
 
+(* ---- os.Stat rejects a path containing NUL before looking at the file system ---- *)
+Lemma contains_app c a b : contains c (a ++ b) = contains c a || contains c b.
+Proof. unfold contains. apply existsb_app. Qed.
+
+Lemma stat_no_nul f p : contains (ch 0) p = false -> stat f p = stat_from f [c_dot] (comps_of p).
+Proof. intros H. unfold stat. rewrite H. reflexivity. Qed.
+
+Lemma stat_nul f p : contains (ch 0) p = true -> stat f p = StErr.
+Proof. intros H. unfold stat. rewrite H. reflexivity. Qed.
+
+(* any answer other than an error was computed by the walk *)
+Lemma stat_inv f p s : stat f p = s -> s <> StErr -> stat_from f [c_dot] (comps_of p) = s.
+Proof. unfold stat. destruct (contains (ch 0) p); [congruence|auto]. Qed.
+
+Lemma acc_no_nul e : os_refuses e = false -> contains (ch 0) e = false.
+Proof. unfold os_refuses. intros H. apply orb_false_iff in H. tauto. Qed.
+
+Lemma no_nul_join : forall es,
+  Forall (fun e => contains (ch 0) e = false) es -> contains (ch 0) (join es) = false.
+Proof.
+  induction es as [|e es IH]; intros HF; [reflexivity|]. inversion HF as [|? ? He Hes]; subst.
+  destruct es as [|e2 es'].
+  - cbn [join join_with]. exact He.
+  - change (join (e :: e2 :: es')) with (e ++ [c_slash] ++ join (e2 :: es')).
+    rewrite !contains_app, He, (IH Hes). reflexivity.
+Qed.
+
+(* a path whose components the OS accepts contains no NUL *)
+Lemma no_nul_pth es : acc es -> contains (ch 0) (pth es) = false.
+Proof.
+  intros Ha. destruct es as [|e r]; [reflexivity|]. unfold pth. apply no_nul_join.
+  eapply Forall_impl; [|exact Ha]. intros a. apply acc_no_nul.
+Qed.
+
+Lemma stat_pth f es : eok es -> acc es -> stat f (pth es) = stat_from f [c_dot] es.
+Proof. intros He Ha. rewrite stat_no_nul by (apply no_nul_pth; exact Ha). rewrite comps_pth by exact He. reflexivity. Qed.
+
+(* a walk that ends on a directory met no refused component *)
+Lemma stat_from_dir_acc : forall cs f cur, stat_from f cur cs = StDir -> acc cs.
+Proof.
+  induction cs as [|c rest IH]; intros f cur H; [constructor|]. cbn [stat_from] in H.
+  destruct (os_refuses c) eqn:R; [discriminate|].
+  destruct (lookup (join2 cur c) f) as [[|e]|]; [|destruct rest; discriminate|discriminate].
+  constructor; [exact R|eapply IH; exact H].
+Qed.
+
 (* os.Create of an absent name in an existing directory appends an empty file *)
 Lemma create_spec f anc n :
   eok (anc ++ [n]) -> os_refuses n = false ->
@@ -422,7 +468,7 @@ Lemma create_spec f anc n :
 Proof.
   intros He Hn Hs L. unfold create. rewrite dirname_pth by exact He.
   assert (Ha : eok anc) by (apply eok_app in He; tauto).
-  unfold stat. rewrite comps_pth by exact Ha. rewrite Hs.
+  rewrite (stat_pth f anc Ha (stat_from_dir_acc _ _ _ Hs)). rewrite Hs.
   rewrite basename_pth by exact He. rewrite Hn, L. rewrite set_kind_none by exact L. reflexivity.
 Qed.
 
@@ -724,7 +770,7 @@ Proof.
   destruct (existsb _ gs) eqn:E; [|reflexivity]. exfalso.
   apply existsb_exists in E as [g [Hg E]]. rewrite Forall_forall in Hw. specialize (Hw g Hg).
   destruct (wf_g_name _ _ Hw) as [Hn Hr].
-  rewrite root_tjoin in E by assumption. unfold stat in E. rewrite comps_pth in E by eo.
+  rewrite root_tjoin in E by assumption. rewrite stat_pth in E by eo.
   change [c_dot] with (pth []) in E. rewrite stat_none in E; [discriminate|cbn [app]; exact Htc|eo|exact Hd|].
   cbn [app]. rewrite <- (app_nil_r (tc ++ [gname g])). apply Hb; [exact Hg|constructor].
 Qed.
@@ -988,7 +1034,7 @@ Lemma stat_none_hyps f tc r :
   stat f (pth (tc ++ [r])) = StNone ->
   dirs_or_none f [] tc /\ below f (tc ++ [r]).
 Proof.
-  intros Hc He Hs. unfold stat in Hs. rewrite comps_pth in Hs by exact He.
+  intros Hc He Hs. apply stat_inv in Hs; [|discriminate]. rewrite comps_pth in Hs by exact He.
   destruct (stat_none_inv (tc ++ [r]) f [] He Hs) as [a [c [Ha [Hd L]]]]. cbn [app] in L.
   assert (Hne : a ++ [c] <> []) by (destruct a; discriminate).
   split.
@@ -1217,7 +1263,7 @@ Lemma after_root_stat g : In g gs ->
   stat f' (tjoin (pth tc) (gpath g)) = (if is_file exts g then StFile else StDir).
 Proof.
   intros Hg. pose proof Hw as Hw'. rewrite Forall_forall in Hw'. destruct (wf_g_name _ _ (Hw' g Hg)) as [Hn Hr].
-  rewrite root_tjoin by auto. unfold stat. rewrite comps_pth by eo. change [c_dot] with (pth []).
+  rewrite root_tjoin by auto. rewrite stat_pth by eo. change [c_dot] with (pth []).
   rewrite (stat_found tc f' [] (gname g) (kind_of exts g)).
   - unfold kind_of. destruct (is_file exts g); reflexivity.
   - cbn [app]. eo.
